@@ -604,6 +604,8 @@ class Provenance(MutableSequence[Expression]):
         index: Union[int, slice, Sequence[int], Sequence[bool], NDArray[np.int_], NDArray[np.bool_]],
         value: Union[Expression, Iterable[Expression]],
     ) -> None:
+        # Once a row is reassigned, the tuples are no longer guaranteed to be one per unit in unit order.
+        self._is_simple = False
         expression_data = [value.data] if isinstance(value, Expression) else list(v.data for v in value)
         expression_data = [
             (
@@ -634,6 +636,7 @@ class Provenance(MutableSequence[Expression]):
     def __delitem__(
         self, index: Union[int, slice, Sequence[int], Sequence[bool], NDArray[np.int_], NDArray[np.bool_]]
     ) -> None:
+        self._is_simple = False
         self._data = np.delete(self._data, index, axis=0)
 
     def __len__(self) -> int:
